@@ -53,15 +53,23 @@ BOUNDED = {
     'content_model': {'test': 'replays/suite/vx_content_model.rs', 'props': ['C10', 'C13'],
                       'bound': 'HTTP bodies of 9 sizes (0 .. 100000 bytes) in 1-4 pieces through POST /{topic} and POST /cas; nu .append of byte streams '
                                'in 1, 3, 40 pieces; 18 malformed requests'},
+    'api_model': {'test': 'replays/suite/vx_api_model.rs', 'props': ['C06', 'C13'],
+                  'bound': 'head-follow over the real HTTP front end in a context with and without an existing head, same topic appended in three '
+                           'contexts; 14 topic names that start like a reserved path (cas / head / import / version) posted with a body, with and '
+                           'without ?context=, then read back through GET /head'},
+    'lifecycle_model': {'test': 'replays/suite/vx_lifecycle_model.rs', 'props': ['C16', 'C18', 'C19'],
+                        'bound': 'one lifecycle each on the real serve loops with real nu scripts: handler replace / unregister / invalid script / failing '
+                                 'closure; generator with three strings, spawn without content, spawn for a known name, restart after stop; command with '
+                                 'three values, failing call, invalid definition, unknown name, redefinition'},
     'handler_model': {'test': 'replays/suite/vx_handler_model.rs', 'props': ['C14', 'C15', 'C06'],
                       'bound': 'four scenarios on the real handlers::serve with real nu scripts: prefix-related names, a handler reacting to every '
                                'frame with forwarded metas, explicit .append --context / spoofed meta, a closure that appends then fails'},
     'follow_model': {'test': 'replays/suite/vx_follow_model.rs', 'props': ['C03', 'C11'],
                      'bound': 'histories of 0 / 3 / 150 frames, 60 live appends (ephemeral mixed in) by one writer, limits 1..6 x 0..5 historical '
                               'matches, tail, two contexts, a consumer that stalls for 3000 appends; assertions on content only'},
-    'store_model': {'test': 'replays/suite/vx_store_model.rs', 'props': ['C01', 'C05', 'C06', 'C07', 'C08', 'C09'],
+    'store_model': {'test': 'replays/suite/vx_store_model.rs', 'props': ['C01', 'C05', 'C06', 'C07', 'C08', 'C09', 'C20'],
                     'bound': 'VX_HISTORIES histories (40 quick / 200 thorough) x 60 steps, seeded by VERIF_SEED; 12 adversarial topics, 3 contexts '
-                             '(one numerically adjacent, imported), all TTL kinds, remove, reopen, last-id/limit reads'},
+                             '(one numerically adjacent, imported), all TTL kinds, remove, reopen, last-id/limit reads, rejected appends and imports; every 4th history exported and imported newest-first into an empty store'},
 }
 
 
@@ -155,6 +163,11 @@ def check(prop_id, tier, seed):
     os.makedirs(workdir, exist_ok=True)
     units = list(spec['units']) + (spec.get('thorough_units', []) if tier == 'thorough' else [])
     results = run_units(units, tier, workdir)
+    # a unit that could not decide (the code left the shape its proof hints were written for): the heavier units of the thorough
+    # tier (Kani on the compiled functions needs no loop invariants for constant-length loops) are tried before any bounded stand-in
+    fallback = tier != 'thorough' and bool(spec.get('thorough_units')) and any(r.status != 'ok' for r in results.values())
+    if fallback:
+        results.update(run_units(spec['thorough_units'], tier, workdir))
 
     all_obls = {}
     tooling = []
@@ -178,9 +191,10 @@ def check(prop_id, tier, seed):
         solver_ms += r.solver_ms
         canaries.update({f'{u}:{k}': v for k, v in r.canaries.items()})
 
-    mine = select(all_obls, spec['obligations'])
+    globs = list(spec['obligations']) + (spec.get('thorough_obligations', []) if (tier == 'thorough' or fallback) else [])
+    mine = select(all_obls, globs)
     # expected list guard: every glob of the property must match at least one obligation
-    missing = [g for g in spec['obligations'] if not any(fnmatch.fnmatch(n, g) for n in all_obls)]
+    missing = [g for g in globs if not any(fnmatch.fnmatch(n, g) for n in all_obls)]
     known = [k for k in load_known() if k['property'] == prop_id and k.get('status', 'open') == 'open']
     known_by_ob = {}
     for k in known:
